@@ -31,6 +31,8 @@ def shards(tier):
 
 def gates(c, tier):
     out = [f"never used: {k}" for k in NEEDED if c.get(k, 0) == 0]
+    if c.get("part:large-flat-sentences", 0) == 0:
+        out.append("no large flat sentence")
     if c.get("part:deep-sentences", 0) == 0:
         out.append("no deeply nested sentence")
     if c.get("malformed-inputs-interleaved", 0) == 0:
@@ -115,6 +117,7 @@ def run_shard(ctx: Ctx, acc: Acc):
         for key, what in check_text(text, tree):
             acc.violation(key, what, {"text": text})
     deep_sentences(ctx, acc)
+    large_sentences(ctx, acc)
 
 
 def deep_sentences(ctx, acc):
@@ -161,7 +164,52 @@ def deep_sentences(ctx, acc):
                 acc.violation("sentence-misparsed:deep", f"{d} nested {op!r} around {leaf_text[:60]!r}: wrong tree", {"text": text, "deep": True})
 
 
+def large_sentence(which, size):
+    if which == "one-value":
+        return "(cn=" + "v" * size + ")", ("eq", "cn", b"v" * size)
+    if which == "escaped-value":
+        return "(cn=" + "\\c3\\a9" * (size // 6) + ")", ("eq", "cn", "\u00e9".encode() * (size // 6))
+    n_items = size // 17
+    return "(|" + "".join("(uid=user%07d)" % i for i in range(n_items)) + ")", ("or", tuple(("eq", "uid", b"user%07d" % i) for i in range(n_items)))
+
+
+def large_sentences(ctx, acc):
+    """Grammar sentences of 1.2 / 5 MB (thorough: 20 MB): one long value, one long escaped value, an OR of many items. Flat, so
+    parsing is linear; a generous 120 CPU-second budget."""
+    sizes = [1_200_000, 5_000_000] + ([20_000_000] if ctx.thorough else [])
+    k = 0
+    for size in sizes:
+        for which in ("one-value", "escaped-value", "many-items"):
+            k += 1
+            if k % ctx.nshards != ctx.shard:
+                continue
+            text, tree = large_sentence(which, size)
+            acc.case()
+            acc.count("part:large-flat-sentences")
+            acc.nontrivial("large", which, size)
+            try:
+                with cpu_limit(120):
+                    got = sl.LDAPFilter.from_string(text)
+            except CpuTimeout:
+                acc.count("large-flat-sentence:cpu-timeout")  # cost is C18's subject: no verdict here
+                continue
+            except Exception as e:
+                acc.violation(f"sentence-rejected:large:{type(e).__name__}", f"a {len(text)}-character RFC 4515 sentence ({which}) was rejected: {type(e).__name__}: {str(e)[:100]}", {"large": [which, size]})
+                continue
+            ok = (isinstance(got, sl.FilterEquality) and got.attribute == tree[1] and got.value == tree[2]) if tree[0] == "eq" else \
+                 (isinstance(got, sl.FilterOr) and len(got.filters) == len(tree[1]) and got.filters[0].value == tree[1][0][2] and got.filters[-1].value == tree[1][-1][2])
+            if not ok:
+                acc.violation("sentence-misparsed:large", f"{len(text)}-character sentence ({which}) parsed to something else", {"large": [which, size]})
+
+
 def replay(w):
+    if w.get("large"):
+        text, _ = large_sentence(*w["large"])
+        try:
+            sl.LDAPFilter.from_string(text)
+            return []
+        except Exception as e:
+            return [(f"sentence-rejected:large:{type(e).__name__}", str(e)[:100])]
     text = w["text"]
     if w.get("deep"):
         try:
